@@ -418,10 +418,15 @@ def run(tier, seed):
     with ProcessPoolExecutor(max_workers=check.NPROC, mp_context=ctx) as ex:
         futs = [ex.submit(_worker, (s, tier)) for s in seeds]
         wall = float(os.environ.get("PROVSIM_WALL", wall))
+        capped = False
         for f in futs:
-            if time.time() - t0 > wall and f.cancel():
+            if time.time() - t0 > wall and not capped:
+                capped = True  # wall cap reached: everything not yet started is dropped (never a pass/fail)
+                for g in reversed(futs):
+                    g.cancel()
+            if f.cancelled():
                 agg["not_run_wall_cap"] = agg.get("not_run_wall_cap", 0) + 1
-                continue  # wall cap reached: scenarios not yet started are dropped, never a pass/fail
+                continue
             remaining = max(5.0, wall * 3 - (time.time() - t0))
             try:
                 st = f.result(timeout=remaining)
